@@ -788,9 +788,9 @@ impl DnsListenerHandler {
 
         let mut lbytes = [0u8; 2];
 
-        if sock.read(&mut lbytes).await.map_err(Error::RecvError)? != lbytes.len() {
-            return Err(Error::ParseError("Failed to read length".into()));
-        }
+        sock.read_exact(&mut lbytes)
+            .await
+            .map_err(Error::RecvError)?;
 
         let l = u16::from_be_bytes(lbytes) as usize;
         let mut buffer = vec![0u8; l];
